@@ -93,6 +93,7 @@ type Sched struct {
 	siteCount  map[string]int
 	mapCount   map[string]int
 	draining   atomic.Bool
+	killOnPark atomic.Bool
 	exempt     atomic.Uint64 // goroutine id whose zzsim calls are pass-through (set-up code)
 
 	pol       Policy
@@ -276,6 +277,12 @@ func Yield(site string) {
 }
 
 func (s *Sched) Yield(site string) {
+	if s.killOnPark.Load() {
+		if t := s.cur(); t != nil {
+			runtime.Goexit()
+		}
+		return
+	}
 	t := s.cur()
 	if t == nil {
 		if !s.draining.Load() {
@@ -1005,6 +1012,14 @@ func (s *Sched) KillAll(match func(name string) bool) {
 	}
 	s.mu.Unlock()
 	s.draining.Store(false)
+}
+
+// DrainKillOnPark switches to pass-through mode like Drain(kill everything) and additionally
+// terminates every task that reaches a yield point afterwards (goroutines that loop for ever
+// on a ticker are ended at their post-tick yield).
+func (s *Sched) DrainKillOnPark() {
+	s.killOnPark.Store(true)
+	s.Drain(func(string) bool { return true })
 }
 
 // Drain switches to pass-through mode and releases every parked task; tasks
